@@ -711,12 +711,14 @@ class TryParseModel(Model):
         self.outcomes = 0
 
     def any_outcome(self, ex, st, ret, what):
-        out = [Path(st, "normal", ret)]
+        out = []
         for cname, cls in self.classes.items():
             s2 = st.fork()
+            s2.log.append(f"{what} raises {cname}")
             out.append(Path(s2, "raise", ExcVal(PyConst(cls), tag=f"{what} raises {cname}")))
+        st.log.append(f"{what} returns")
         self.outcomes += 1
-        return out
+        return [Path(st, "normal", ret)] + out
 
     def name(self, ex, st, n):
         if n in ("PrematureEndOfInput", "LexException", "Exception"):
@@ -753,9 +755,14 @@ class TryParseModel(Model):
         if src == "self.getc":
             return self.any_outcome(ex, st, ex.fresh(z3.StringSort(), "c"), "getc")
         if src == "self.reader_table.get":
-            return [Path(st, "normal", Obj("handler")), Path(st.fork(), "normal", E.NONE)]
+            s2 = st.fork()
+            st.log.append("a handler is registered")
+            s2.log.append("no handler")
+            return [Path(st, "normal", Obj("handler")), Path(s2, "normal", E.NONE)]
         if src in ("handler", "self.read_default"):
-            return self.any_outcome(ex, st, Obj("model"), src) + [Path(st.fork(), "normal", E.NONE)]
+            s2 = st.fork()
+            s2.log.append(f"{src} returns None")
+            return self.any_outcome(ex, st, Obj("model"), src) + [Path(s2, "normal", E.NONE)]
         if src == "self.fill_pos":
             return self.any_outcome(ex, st, Obj("model"), "fill_pos")
         if src == "PrematureEndOfInput.from_reader":
@@ -800,16 +807,16 @@ def c18_try_parse(chk, prefix="try_parse_one_form"):
     st.globals["_current_reader"] = old
     st.ghost["self"] = self_
     paths = run_fn(ex, st, fn, {"self": self_})
-    k = 0
     kinds = {}
     for p in paths:
-        k += 1
         kinds[p.kind] = kinds.get(p.kind, 0) + 1
+        # obligations are named by what the callees did on the path (stable under edits that keep the behaviour), not by path numbers
+        hist = "; ".join(x for x in p.st.log if isinstance(x, str)) or "no callee was reached"
         if p.kind == "raise":
             cls = p.val.cls.obj if isinstance(p.val, ExcVal) and isinstance(p.val.cls, PyConst) else None
-            ex.oblige(f"every exception that escapes is a LexException (path {k}: {getattr(p.val, 'tag', '')})", p.st,
+            ex.oblige(f"every exception that escapes is a LexException [{hist}]", p.st,
                       z3.BoolVal(cls is not None and issubclass(cls, hre.LexException)))
-        ex.oblige(f"HyReader._current_reader is restored on exit ({p.kind} path {k})", p.st, z3.BoolVal(p.st.globals["_current_reader"] is old))
+        ex.oblige(f"HyReader._current_reader is restored on exit [{hist}] ({p.kind})", p.st, z3.BoolVal(p.st.globals["_current_reader"] is old))
     ex.oblige("vacuity: returning and raising paths exist, callees were given every outcome", st,
               z3.BoolVal(kinds.get("return", 0) >= 2 and kinds.get("raise", 0) >= 10 and m.outcomes >= 4))
     discharge(chk, prefix, ex)
@@ -844,35 +851,45 @@ class FComponentModel(Model):
             return Obj("attr:" + src)
         return NotImplemented
 
-    def prim(self, ex, st, eof_value, normal_value):
+    def site(self, st, node):
+        """Stable name of a call site: its source text and its ordinal among the calls with that text met on this path."""
+        src = ast.unparse(node)
+        n = sum(1 for x in st.log if isinstance(x, tuple) and x[0] == "site" and x[1] == src) + 1
+        st.log.append(("site", src))
+        return f"{src} #{n}"
+
+    def prim(self, ex, st, eof_value, normal_value, node=None):
         """A primitive that returns `eof_value` at end of input (and sets the ghost) or `normal_value` before it."""
         if st.ghost.get("eof"):
             return [Path(st, "normal", eof_value)]
+        where = self.site(st, node) if node is not None else "?"
         s2 = st.fork()
-        s2.ghost["eof"] = True
+        s2.ghost["eof"] = where
         return [Path(st, "normal", normal_value), Path(s2, "normal", eof_value)]
 
     def call(self, ex, st, f, args, kwargs, node):
         src = ast.unparse(node.func)
         if src == "self.slurp_space":
-            return self.prim(ex, st, z3.StringVal(""), ex.fresh(z3.StringSort(), "ws"))
+            return self.prim(ex, st, z3.StringVal(""), ex.fresh(z3.StringSort(), "ws"), node)
         if src == "self.getc":
             c = ex.fresh(z3.StringSort(), "c")
-            out = self.prim(ex, st, z3.StringVal(""), c)
+            out = self.prim(ex, st, z3.StringVal(""), c, node)
             out[0].st.pc.append(z3.Length(c) == 1) if not st.ghost.get("eof") else None
             return out
         if src == "self.peek_and_getc":
             if st.ghost.get("eof"):
                 return [Path(st, "normal", z3.BoolVal(False))]
+            where = self.site(st, node)
             s2, s3 = st.fork(), st.fork()
-            s3.ghost["eof"] = True
+            s3.ghost["eof"] = where
             return [Path(st, "normal", z3.BoolVal(True)), Path(s2, "normal", z3.BoolVal(False)), Path(s3, "normal", z3.BoolVal(False))]
         if src in ("self.parse_one_form", "self.read_fcomponents_until"):
             pe = ExcVal(PyConst(self.classes["PrematureEndOfInput"]), tag=src + " at end of input")
             if st.ghost.get("eof"):
                 return [Path(st, "raise", pe)]
+            where = self.site(st, node)
             s2, s3 = st.fork(), st.fork()
-            s2.ghost["eof"] = True
+            s2.ghost["eof"] = where
             return [Path(st, "normal", Obj("model") if "parse" in src else E.Lst([Obj("spec")])),
                     Path(s2, "raise", pe),
                     Path(s3, "raise", ExcVal(PyConst(self.classes["LexException"]), tag=src + " syntax error"))]
@@ -907,17 +924,31 @@ def c19_read_fcomponent(chk, prefix="read_fcomponent"):
     ex.ev_Starred = lambda st, e: ex.ev(st, e.value)
     st = State()
     paths = run_fn(ex, st, fn, {"self": Obj("reader"), "prefix": z3.String("prefix"), "fstring_mode": z3.String("mode")})
-    k = 0
     n_eof = 0
     for p in paths:
-        k += 1
         if not p.st.ghost.get("eof"):
             continue
         n_eof += 1
         cls = p.val.cls.obj if (p.kind == "raise" and isinstance(p.val, ExcVal) and isinstance(p.val.cls, PyConst)) else None
-        ex.oblige(f"end of input inside a replacement field raises PrematureEndOfInput, nothing else (path {k}: {p.kind} {getattr(p.val, 'tag', '')})",
+        ex.oblige(f"end of input met at `{p.st.ghost['eof']}` ends in PrematureEndOfInput, nothing else",
                   p.st, z3.BoolVal(cls is hre.PrematureEndOfInput))
     ex.oblige("vacuity: paths that hit the end of input exist and so do complete ones", st,
               z3.BoolVal(n_eof >= 3 and any(p.kind == "return" and not p.st.ghost.get("eof") for p in paths)))
-    discharge(chk, prefix, ex)
+
+    def concrete(name, model):
+        """Replay of a refuted path on the real reader: truncated replacement fields, one per place a field can end."""
+        import hy
+        bad = []
+        for body in ("{x", "{x ", "{x =", "{x = ", "{x !", "{x !r", "{x !r ", "{x = !r", "{x :", "{x :>", "{x !r:", "{x :{y", "{x :{y}"):
+            for text in ('f"' + body, "#[f[" + body, '(print f"a' + body):
+                try:
+                    list(hy.read_many(text))
+                    got = "read without error"
+                except hre.PrematureEndOfInput:
+                    continue
+                except BaseException as e:  # noqa: BLE001
+                    got = f"{type(e).__name__}: {getattr(e, 'msg', e)}"
+                bad.append({"input": text, "observed": got, "expected": "PrematureEndOfInput"})
+        return {"confirmed": bool(bad), "inputs": bad[:6]} if bad else None
+    discharge(chk, prefix, ex, extra_models=concrete)
     chk.extra["read_fcomponent_paths"] = len(paths)
